@@ -303,6 +303,10 @@ def check_c21(ctx):
     sc = mc_consts(ctx, "safety")
     ctx.cov["constants"]["MC"] = sc
     ctx.tlc_must_pass("Pipe", "Pipe", "MC.cfg", defines=sc, timeout=1500, coverage=not q)
+    # Terminated is a stuttering step (never a new state); any other action TLC never took = vacuous model
+    unc = [a for a in ctx.cov.pop("coverage_zero_actions", []) if not a.startswith("Terminated@")]
+    if unc:
+        raise vlib.MachineryError("vacuous model: actions never taken: %s" % unc)
     lc = mc_consts(ctx, "live")
     ctx.cov["constants"]["MC_Live"] = lc
     # fairness of the reader only: every accepted byte is read unless broken / released
@@ -315,7 +319,7 @@ def check_c21(ctx):
     cases = []
     g0 = {"CAPS": "2", "MAXW": 3, "MAXR": 2, "WRITES": 2, "COPS": 1, "ERRREADS": 1,
           "CERRS": '"e1"', "BERRS": '"e2"', "OPS": 6, "GATE": 0} if q else \
-         {"CAPS": "1,2", "MAXW": 3, "MAXR": 2, "WRITES": 2, "COPS": 2, "ERRREADS": 1,
+         {"CAPS": "1,2", "MAXW": 2, "MAXR": 2, "WRITES": 2, "COPS": 2, "ERRREADS": 1,
           "CERRS": '"eof","e1"', "BERRS": '"e2"', "OPS": 7, "GATE": 0}
     ctx.cov["constants"]["Gen_exhaustive"] = g0
     cases += gen(ctx, g0, timeout=1500)
